@@ -15,6 +15,12 @@ def main():
     ap.add_argument("--replay", default=None)
     ap.add_argument("--no-build", action="store_true")
     a = ap.parse_args()
+    # A check started as a background job of a non-interactive shell (`cmd &`, nohup, some CI runners) inherits SIGINT = SIG_IGN, and
+    # Python then installs no handler of its own: Ctrl-C scenarios would measure nothing and "the handler after a run" would be compared
+    # with the wrong baseline.  Every check starts from the disposition an interactive Python process has.
+    import signal
+    if signal.getsignal(signal.SIGINT) in (signal.SIG_IGN, signal.SIG_DFL, None):
+        signal.signal(signal.SIGINT, signal.default_int_handler)
     seed = int(os.environ.get("VERIF_SEED", "0") or 0)
     if a.replay:
         # a replay file records the seed and tier of the run that produced it: the check is deterministic given those
